@@ -24,6 +24,7 @@ func init() {
 			tableDeletePairing(r)
 			kvCompactionSourceNotHead(r)
 			kvScanIndexRegistration(r)
+			kvOldHeadReadOnly(r)
 			kvSizeBoundaryAgreement(r)
 			kvImportPropagates(r)
 		},
